@@ -146,8 +146,9 @@ func (e *Exec) callRepo(f *ssa.Function, args []Term, x *ssa.Call) val {
 		// C04; the quantified axioms of the generic function remain available)
 		env := e.g.calleeEnv(f, args)
 		for _, cl := range ct.clauses {
-			if cl.kind != "ensures" || !e.g.tagAllowed(cl.tags) || e.w.clauseIsFinding(f, cl, cl.ord) || len(cl.using) > 0 {
-				continue // (a clause that needs invariant groups is a heavy quantified fact: not handed to callers)
+			if cl.kind != "ensures" || !e.g.tagAllowed(cl.tags) || e.w.clauseIsFinding(f, cl, cl.ord) || (len(cl.using) > 0 && !usesPublic(cl.using)) {
+				continue // (a clause that needs invariant groups is a heavy quantified fact: not handed to callers, unless
+				// its `using` list names the pseudo-group `public`)
 			}
 			env.instAt = e.root().goalSk
 			t := env.tr(cl.expr)
@@ -320,7 +321,7 @@ func (g *Gen) calleeAxioms(f *ssa.Function) {
 			if cl.kind == "ensures" && g.w.clauseIsFinding(f, cl, cl.ord) {
 				continue // a recorded finding is never used as a premise
 			}
-			if len(cl.using) > 0 {
+			if len(cl.using) > 0 && !usesPublic(cl.using) {
 				continue // heavy quantified clause (proved with invariant groups): not a premise for callers
 			}
 			// a quantified postcondition is also instantiated at the goal constants of the function being verified
@@ -564,3 +565,14 @@ func constString(v ssa.Value) (string, bool) {
 }
 
 func (e *Exec) inlineDepth() int { return e.depth }
+
+// usesPublic: a clause proved with invariant groups is a premise for callers only when it opts in with the pseudo-group
+// `public` (it switches no invariant on; it only marks the clause as small enough to be handed out).
+func usesPublic(using []string) bool {
+	for _, u := range using {
+		if u == "public" {
+			return true
+		}
+	}
+	return false
+}
